@@ -341,7 +341,7 @@ def c13_jobs(tier):
          dict(harness="sym_glue", pattern=r"^sym/n(6k1m3|4k2m3)/LargestMagn/LargestAlge/maxit1/ic$|^sym/n6k2m5/LargestMagn/LargestAlge/maxit0/ic$", label="whole runs under ASan/UBSan (symmetric)", deadline=200, sanitize=True),
          dict(harness="gen_glue", pattern=r"^gen/n5k1m3/LargestImag/LargestMagn/maxit1/ic$|^gen/n6k2m5/LargestMagn/LargestMagn/maxit0/ic$", label="whole runs under ASan/UBSan (general)", deadline=200, sanitize=True)]
     q.append(dict(harness="c07_krylov", pattern=r"^lanczos-step/n3/k2/zero$|^arnoldi-step/n3/k[12]/regular$|^(arnoldi|lanczos)-init/n2/v[01]$", label="definedness (division / sqrt) obligations inside the real Krylov kernels (shared with C07)", deadline=200))
-    q.append(dict(harness="c06_poison", pattern=r"^audit/", label="real solvers + real kernels on 11 degenerate concrete operators with an auditing operator (buffers, work bound, finiteness) under ASan/UBSan",
+    q.append(dict(harness="c13_audit", pattern=r"^audit/", label="real solvers + real kernels on 11 degenerate concrete operators with an auditing operator (buffers, work bound, finiteness) under ASan/UBSan",
                   deadline=200, sanitize=True))
     if tier == "quick":
         return q
